@@ -300,17 +300,25 @@ fn handle_item(
                     .get(scope.clone(), args, pos, file_context)
                     .map_err(|e| e.called_from(pos, name))?;
                 mixin.define_content(&scope, body.as_ref());
-                handle_parsed(mixin.body, dest, mixin.scope, file_context)
-                    .map_err(|e: Error| match e {
-                        Error::Invalid(err, _) => err.at(pos.clone()),
-                        Error::BadCall(msg, pos, p2) => {
-                            Error::BadCall(msg, pos.in_call(name), p2)
-                        }
-                        e => {
-                            let pos = pos.in_call(name);
-                            Error::BadCall(e.to_string(), pos, None)
-                        }
-                    })?;
+                let result = handle_parsed(
+                    mixin.body,
+                    dest,
+                    mixin.scope,
+                    file_context,
+                );
+                if let Some(source) = &mixin.loading {
+                    file_context.unlock_loading(source);
+                }
+                result.map_err(|e: Error| match e {
+                    Error::Invalid(err, _) => err.at(pos.clone()),
+                    Error::BadCall(msg, pos, p2) => {
+                        Error::BadCall(msg, pos.in_call(name), p2)
+                    }
+                    e => {
+                        let pos = pos.in_call(name);
+                        Error::BadCall(e.to_string(), pos, None)
+                    }
+                })?;
             } else {
                 return Err(Error::BadCall(
                     "Undefined mixin.".into(),
